@@ -448,9 +448,18 @@ Definition ev_is_exit_holding (e : event) : option (exitkind * nat) :=
   match e with HRunExit x (Some m) => Some (x, m) | _ => None end.
 (* full: whenever run exits holding m, a LeaveGroup for m was attempted (sent, or the
    coordinator could not be reached for it) *)
+(* scanning back from the exit: a leave attempt for m is met before any JoinGroup request
+   (so it is a leave of the CURRENT membership, not of an earlier one with the same id) *)
+Fixpoint left_since_join (m : nat) (h : list event) : bool :=
+  match h with
+  | [] => false
+  | e :: t =>
+    if ev_is_leave m e then true
+    else match e with HJoinReq _ => false | _ => left_since_join m t end
+  end.
 Definition chk_leave_full (e : event) (h : list event) : bool :=
   match e with
-  | HRunExit _ (Some m) => existsb (ev_is_leave m) h
+  | HRunExit _ (Some m) => left_since_join m h
   | HCloseRet _ => existsb ev_is_runexit h
   | _ => true
   end.
